@@ -83,6 +83,25 @@ fn check(c: &RtCase, py_budget: usize) -> CaseResult {
     Ok(m.label(ar.tile_entries.iter().any(|e| e.run > 1), "run>1").label(c.asyncw, "writer-async").label(!c.asyncw, "writer-sync"))
 }
 
+/// Archives that are the result of an edit history on an opened (foreign or library-written) archive are
+/// "archives the writer produces" too: reader-backed tiles, runs coming from the source, edits on top.
+fn check_history(h: &crate::model::history::History) -> CaseResult {
+    use crate::model::history;
+    let mut r = history::start(h, "C02")?;
+    for op in &h.ops {
+        history::step(&mut r, op, "C02")?;
+    }
+    let a = std::mem::replace(&mut r.arch, crate::libx::Arch::new_sync());
+    let bytes = crate::engine::guarded("to_writer", || a.write())?.map_err(|e| Fail::new("C02/write-err", format!("{e}")))?;
+    let ar = validate(&bytes, &r.model, 5, "C02")?;
+    let runs = ar.tile_entries.iter().any(|e| e.run > 1);
+    Ok(crate::engine::Meta::new(ar.tile_entries.len() >= 2 && (runs || ar.has_leaves))
+        .label(true, "written-after-history")
+        .label(runs, "run>1")
+        .label(!matches!(h.init, history::Init::Empty(_)), "reader-backed-source")
+        .label(r.stats.reopens > 0, "history-with-reopen"))
+}
+
 /// Hand the queued sample to tools/pmtiles_ref.py (stdlib-only second reader) in one batch.
 fn python_batch(ctx: &Ctx) {
     let q = std::mem::take(&mut *PY_QUEUE.lock().unwrap());
@@ -147,8 +166,10 @@ pub fn run(ctx: &Ctx) {
     run_proptest(ctx, "validate-written", PtCfg::new(ctx.lanes, ctx.tier.pick(600, 8000)), || c01::strategy(g), |c| check(c, pyb));
     let big = c01::large_cases(ctx);
     run_list(ctx, "validate-written-large", &big, |c| check(c, pyb));
+    let (mo, mi) = ctx.tier.pick((40, 60), (150, 400));
+    run_proptest(ctx, "validate-written-after-history", PtCfg::new(ctx.lanes, ctx.tier.pick(200, 6000)), || crate::model::history::history(mo, mi, 150), check_history);
     python_batch(ctx);
-    for c in ["leaf-spill", "run>1", "dup-content", "internal-brotli", "internal-zstd", "writer-async"] {
+    for c in ["leaf-spill", "run>1", "dup-content", "internal-brotli", "internal-zstd", "writer-async", "written-after-history", "reader-backed-source"] {
         ctx.rec.floor(c, 5);
     }
 }
@@ -156,6 +177,7 @@ pub fn run(ctx: &Ctx) {
 pub fn replay(sub: &str, case: &Value) -> Option<CaseResult> {
     match sub {
         "validate-written" | "validate-written-large" => Some(check(&super::de(case)?, 0)),
+        "validate-written-after-history" => Some(check_history(&super::de(case)?)),
         "python-second-reader" => {
             let bytes = crate::engine::unhex(case.get("archive_hex")?.as_str()?);
             Some(match reader::parse(&bytes, &lim()) {
